@@ -16,6 +16,51 @@ from the branch edges that dominate a site, and locate their subjects by role (t
 
 Verdicts: the located term/site satisfies the condition -> discharged; it is located and differs -> violated; the code
 was reshaped into something the path executor / locator does not model -> undecided.
+
+Technique
+---------
+(numbers refer to the ALLOWED list of RULES_GUIDE.md, "What counts as *static* here"; nothing of the NOT ALLOWED list
+a-e is used: no /repo function, loop or expression is ever run on data chosen by the checker, no numeric input is
+enumerated, no loop is unrolled, no sample string is matched against a /repo regex, nothing of /repo is imported.)
+
+`_Exec` is path-wise value flow (3): it walks the statement structure of a function once per control-flow path and
+keeps, per path, *terms* (ast expressions) for locals / tracked attributes - a term is the defining expression with
+earlier definitions substituted, never a value.  Branch tests are not evaluated on data: `_split` decomposes
+and/or/not/`in (..)` into atoms and records the outcome of every atom as a symbolic fact; an edge is pruned (2) only
+when its atoms contradict facts already on the path or a literally constant test (6).  A `for`/`while` is not iterated:
+its body is analysed once with every loop-assigned name forgotten (3).  Extracted helpers are entered with their
+parameters bound to the argument *terms* (3).  MAXPATHS / nesting depth bound the analysis itself (-> undecided), they
+are not fuel for a concrete run.  The scenarios a rule asks about (`parse or pretty`, `<setting>.type == TYPE_SHORT`,
+`index_type == 'name'`, ...) are named assumptions over a finite vocabulary (5): the boolean view flags, the members
+of the C-defined enum SettingsType, the index_type literals of the reference table VIEWS plus "any other value".
+Lemmas used when facts are combined (`_lookup`, `_cv`):
+  L1  `x == C1` holds  =>  `x == C2` fails for a constant C2 != C1      (a value equals at most one constant);
+  L2  `x is None` holds  =>  `x` is falsy;  `x` is truthy  =>  `x is not None`      (None is falsy);
+  L3  a member of an enum of the C definitions compares equal to its integer value (dissect.cstruct enum semantics),
+      so `s.type == SettingsType.TYPE_SHORT` and `s.type == 1` are the same atom.
+Summary relied on for the integer conversion (`_int_conv`):
+  S1  utils.unpack(data, size, byteorder, signed) is int.from_bytes(data[:size], byteorder, signed=signed); partials
+      of it contribute their bound keywords (read from the resolver), defaults are read from the signature.
+
+R1  6 (C definitions parsed and compared completely with the required layout table), 1.
+R2  3 (per-path key/value terms of the per-setting loop body, analysed once), 2 + 5 (paths selected per scenario of
+    view flags / record type / index_type; a path whose selection involves other atoms about these subjects is
+    undecided), 1 (structural recognition of the conversion call and of the pretty-table application), 6 (constant
+    size/byteorder/signed; parameter defaults); L1-L3, S1.
+R3  3 (per-path return value / stores of each cached view, helpers entered with bound arguments), 2 (the emptiness
+    fact `slot is None` on the filling path, `slot` filled on the returning path; L2), 1 (bind_args of the
+    settings_map call), 6 (its constant arguments compared with the reference table VIEWS).
+R4  3 (identity of the returned mapping term, stores/effects per path of the loop body analysed once), 1 (order-keeping
+    vs order-changing wrappers of the iterated expression and of settings_tuple; resolved callee of iter_settings),
+    2 (paths that leave the loop early / fall off the end).
+R5  2 (CFG reachability / dominance: yield between parse and loop header, terminator edge leaves the loop, handler
+    exit, give-back between peek and parse), 3 (`origin`/`inline` of the compared peek and of the seek offset), 1
+    (peek / seek / struct-parse located by role), 6 (the constants 2, -2, b"\\x00\\x00", SEEK_CUR).
+R6  2 (facts of the branch edges that dominate the rename / extension site), 3 (`inline` of the tests and of the
+    assigned value), 5 + 6 (enum members of the C definitions, 36, 9, 0x80); L1, L3.
+R7  1 (every string subscript / `.get("...")` key and enum attribute in the package that looks like SETTING_*; the
+    `re` pattern is applied to identifiers and string literals taken from the syntax tree to select them, not to
+    judge a /repo regex), 6 (membership in the enum tables of the C definitions).
 """
 
 from __future__ import annotations
